@@ -32,6 +32,9 @@
 (*                              processor delivers it verbatim (REPT,      *)
 (*                              WHILE: REPT_/WHILE_OutProcessor store the  *)
 (*                              raw line).                                 *)
+(*   XP  EXPECT list            INSTANCE DiagPos (C20): Report, AddAll,    *)
+(*                              TakeFirst, CodeEXPECT on the list d.exp /  *)
+(*                              d.inexp of Diag's state                    *)
 (*   SY  symbol table           INSTANCE Symbols (C13): the trees          *)
 (*                              FirstSymbol / FirstLocSymbol as functions  *)
 (*                              <<name, section or local handle>> ->       *)
@@ -133,6 +136,40 @@
 (*                            STRUCT / SECTION is reported (1470 / 1460 /  *)
 (*                            1551 / 1485), a PUSHV stack that is not      *)
 (*                            empty is warned about (230), nothing else is *)
+(*   ExpectListIsHistory      (growth round 6) a message is consumed -     *)
+(*                            recorded "expected", not counted - iff its   *)
+(*                            number is on the EXPECT list, and the list   *)
+(*                            is the numbers the open EXPECT named less    *)
+(*                            those consumed since (d.exp; DiagPos!Report  *)
+(*                            / AddAll / TakeFirst).  ErrsDeltaIsDiagCount *)
+(*                            counts the messages that were NOT consumed.  *)
+(*   EndExpectReportsExactlyUnmet  ENDEXPECT raises one 2130 per entry     *)
+(*                            left on the list, nothing else, and closes   *)
+(*                            the block; without an open block: 2160       *)
+(*   ExpectDoesNotNest        EXPECT inside a block: 2140, the list stays  *)
+(*   ExpectEndsWithPass       a block open at the end of the pass is       *)
+(*                            reported (2150); list and InExpect do not    *)
+(*                            reach the next pass / file (PassInit)        *)
+(*   IfdefReadsTable          IFDEF / IFNDEF name takes the branch the     *)
+(*                            table of the specification dictates: true    *)
+(*                            iff the entry FindLocNode / FindNode finds   *)
+(*                            has been defined in this pass                *)
+(*   PhaseErrorForcesRepass, RepassHasCause  (PASSEND) Repass is set iff a *)
+(*                            constant was re-entered with another value,  *)
+(*                            a lookup found nothing (or a REG statement   *)
+(*                            ran): symbol table x pass loop               *)
+(*   CodeLenIsEmitted         CodeLen of the statement = what its emit /   *)
+(*                            reserve records hand out (all of it, or the  *)
+(*                            last portion behind an automatic pad)        *)
+(*   EmptyLineIsInert, ListingControlIsInert  a line without instruction / *)
+(*                            NEWPAGE, PAGE, TITLE, PRTINIT, PRTEXIT,      *)
+(*                            PAGESIZE: no code, no length, bookkeeping    *)
+(*                            untouched                                    *)
+(*   AlignReachesBoundary     ALIGN n: execution address becomes the next  *)
+(*                            multiple of n (AddrBook!AlignGap)            *)
+(*   EndStopsAssembly, EndSetsEntry  no statement is executed behind END;  *)
+(*                            the code file has an entry record iff an END *)
+(*                            of the last pass gave an address             *)
 (* SkippedIsInert / RecordedIsInert include the symbol table: no           *)
 (* definition, no modification, table after = table before.                *)
 (* Named behaviour of the code the manual does not state:                  *)
@@ -151,6 +188,8 @@
 (*   SetIsInstruction         SET bit,operand on targets that have it      *)
 (*   ResetAt                  ResetSymbolDefines runs in front of the      *)
 (*                            first definition of TRUE (hook: no marker)   *)
+(*   FatalNotExpectable, ExpectedFirst, DrainIsSubjectToList  (section 1)  *)
+(*   PageIsInstruction        PAGE on targets that have such an instruction*)
 (* VARIABLE l = position of the current statement in the record of         *)
 (* statements (the wrappers step it); bodies of macros and loops are       *)
 (* ranges of such positions.                                               *)
